@@ -62,7 +62,9 @@ Definition calls_of (p : profiler) (f : Z) : list Z :=
 Inductive uarg := UNone | UBad | UOk (u : funit).
 Record args := Args {
   a_f : list (option Z);             (* each -f expression: the function, or None if eval raises *)
-  a_m : list (option (list Z));      (* each -m: functions add_module registers, or None if import fails *)
+  a_m : list (option (list Z));      (* each -m NAME: the functions add_module registers for the module NAME
+                                        ITSELF (__import__(NAME, fromlist=[""]): for a dotted NAME the sub-module,
+                                        not its top-level package), or None if the import fails *)
   a_u : uarg;
   a_r : bool;
   a_s : bool;
